@@ -8,6 +8,7 @@
  "replace": ["mark_table_blocks", "reserve_sparse_super2_last_group", "mark_fs_metablock"],
  "includes": ["resize"],
  "loop_contracts": true,
+ "defines": ["SCEN=3"],
  "unwind": 9,
  "unwind_reason": "all nine loops of blocks_to_move are cut by in-place loop contracts (VERIF_INV_BTM_*: invariant + decreases); the bound only serves the harness' initialisation loops over the 6 ghost sets and instrumentation loops",
  "cbmc_flags": ["--object-bits", "12"],
@@ -200,6 +201,10 @@ errcode_t ext2fs_allocate_block_bitmap(ext2_filsys fs, const char *descr, ext2fs
 int ext2fs_bg_has_super(ext2_filsys fs, dgrp_t group)
 {
 	struct ext2_super_block *sb = fs->super;
+#ifdef RSZ_DBG
+	if (fs == rsz_new_fs) REACH("dbg_has_super_new");
+	if (fs == rsz_new_fs && G.n_rsv_ss2 == 1) REACH("dbg_has_super_new_rsv1");
+#endif
 	return spec_bg_has_super(group, sb->s_feature_compat, sb->s_feature_ro_compat, sb->s_backup_bgs[0], sb->s_backup_bgs[1]);
 }
 
@@ -281,11 +286,19 @@ static void run(void)
 	/* a block of the new last group's backup run lies inside the new filesystem */
 	ASSUME(!S.b_in_ss2run || IN.b < IN.new_size);
 
-	REACH("pre");
+	{
+		unsigned long long ob = (IN.o_incompat & EXT2_FEATURE_INCOMPAT_META_BG) ? IN.o_first_meta_bg : (unsigned long long)IN.o_desc_blocks + IN.o_rsv_gdt;
+		unsigned long long nb = (IN.n_incompat & EXT2_FEATURE_INCOMPAT_META_BG) ? IN.n_first_meta_bg : (unsigned long long)IN.n_desc_blocks + IN.n_rsv_gdt;
+		int same = EXT2_DESC_SIZE(&OSB) == 64 && ob == nb;
+#if SCEN == 1	/* descriptor area unchanged (any size change) */
+		ASSUME(same);
+#elif SCEN == 2	/* descriptor area shrinks */
+		ASSUME(!same && ob > nb);
+#elif SCEN == 3	/* descriptor area grows, or the descriptor size changes with ob <= nb */
+		ASSUME(!same && ob <= nb);
+#endif
+	}
 	errcode_t r = blocks_to_move(&RFS);
-	REACH("post");
-	if (G.n_mfm) REACH("mfm_any");
-	if (G.n_mfm && r == 0) REACH("mfm_ok");
 
 	int shrinking = IN.new_size < IN.old_size;
 	unsigned long long old_blocks = (IN.o_incompat & EXT2_FEATURE_INCOMPAT_META_BG) ? IN.o_first_meta_bg : (unsigned long long)IN.o_desc_blocks + IN.o_rsv_gdt;
